@@ -4,7 +4,13 @@ import json, os, re, shutil, sys
 p, k, det = sys.argv[1], sys.argv[2], sys.argv[3]
 note = sys.argv[4] if len(sys.argv) > 4 else ''
 src = '/tmp/wt-%s/out' % p
-dst = '/verif/seeded/%s-%s' % (p.upper(), k)
+wt = p
+# second-round worktrees are called uNN: property CNN, seeds numbered 3 and 4
+k_out = k
+if p.startswith('u'):
+    p = 'c' + p[1:]
+    k_out = str(int(k) + 2)
+dst = '/verif/seeded/%s-%s' % (p.upper(), k_out)
 os.makedirs(dst, exist_ok=True)
 shutil.copy(os.path.join(src, 'change%s.diff' % k), os.path.join(dst, 'patch.diff'))
 shutil.copy(os.path.join(src, 'demo%s.rs' % k), os.path.join(dst, 'demo.rs'))
@@ -13,10 +19,10 @@ try:
 except Exception:
     meta = {}
 log = ''
-lp = '/tmp/confirm-%s.log' % p
+lp = '/tmp/confirm-%s.log' % wt
 if os.path.exists(lp):
     txt = open(lp).read()
-    m = re.search(r'##### %s change%s\n(.*?)(?=#####|\Z)' % (p, k), txt, re.S)
+    m = re.search(r'##### %s change%s\n(.*?)(?=#####|\Z)' % (wt, k), txt, re.S)
     log = m.group(1).strip() if m else ''
 meta2 = {
     'property': p.upper(),
